@@ -124,7 +124,33 @@ func runC06(c *Ctx) {
 
 	// (nullpages) + (final)
 	rule = "C06.nullpages"
-	for _, searchFn := range []string{"linearSearch", "binarySearch"} {
+	// the search entry points and what they call in the package: a fast path
+	// added in front of the searches uses bounds just as they do
+	searchFns := []string{"linearSearch", "binarySearch"}
+	{
+		seen := map[string]bool{"linearSearch": true, "binarySearch": true}
+		var grow func(f *ssa.Function, depth int)
+		grow = func(f *ssa.Function, depth int) {
+			if f == nil || f.Blocks == nil || depth > 3 {
+				return
+			}
+			if k := FuncKey(f); !seen[k] && f.Parent() == nil {
+				seen[k] = true
+				searchFns = append(searchFns, k)
+			}
+			allCalls(f, true, func(_ *ssa.Function, call ssa.CallInstruction) {
+				if sc := call.Common().StaticCallee(); sc != nil && fnPkgPath(sc) == modPath && sc.Signature.Recv() == nil {
+					grow(sc, depth+1)
+				}
+			})
+		}
+		for _, k := range []string{"Search", "Find"} {
+			if o := p.LookupFunc(k); o != nil {
+				grow(p.SSAFunc(o), 0)
+			}
+		}
+	}
+	for _, searchFn := range searchFns {
 		rule = "C06.nullpages"
 		obj := p.LookupFunc(searchFn)
 		if !c.Anchor(rule, searchFn, obj != nil) {
